@@ -286,7 +286,8 @@ class TemplateData(object):
         # ocea_133.bufr from benchmark data has QA info attached to 031001.
         factor_node = self.add_delayed_replication_factor_node()
         delayed_replication_node.factor = factor_node
-        for _ in range(self.decoded_values[factor_node.index]):
+        # The factor may come back as a whole float when a scale operator is in effect
+        for _ in range(int(self.decoded_values[factor_node.index])):
             self.wire_members(descriptor.members)
         self.decoded_nodes = nodes
 
